@@ -148,17 +148,22 @@ func (s *vFSState) find(name string) int {
 	return -1
 }
 func (s *vFSState) put(name string, d []byte) {
-	if i := s.find(name); i >= 0 {
-		s.data[i] = d
-		return
+	for i := range s.names {
+		if s.names[i] == name {
+			s.data[i] = d
+			return
+		}
 	}
 	s.names = append(s.names, name)
 	s.data = append(s.data, d)
 }
 func (s *vFSState) del(name string) {
-	if i := s.find(name); i >= 0 {
-		s.names = append(s.names[:i:i], s.names[i+1:]...)
-		s.data = append(s.data[:i:i], s.data[i+1:]...)
+	for i := range s.names {
+		if s.names[i] == name {
+			s.names = append(s.names[:i:i], s.names[i+1:]...)
+			s.data = append(s.data[:i:i], s.data[i+1:]...)
+			return
+		}
 	}
 }
 func (s *vFSState) clone() *vFSState {
@@ -176,10 +181,13 @@ func vfsApply(s *vFSState, op vFSOp) {
 	case "write":
 		s.put(op.name, op.data)
 	case "rename":
-		if i := s.find(op.name); i >= 0 {
-			d := s.data[i]
-			s.del(op.name)
-			s.put(op.to, d)
+		for i := range s.names {
+			if s.names[i] == op.name {
+				d := s.data[i]
+				s.del(op.name)
+				s.put(op.to, d)
+				break
+			}
 		}
 	case "remove":
 		s.del(op.name)
